@@ -349,7 +349,8 @@ func ruleXZReaderChecks(c *Ctx, r *Report, prefix string) {
 			if roleLenOf(data)(g.y) {
 				H = g.x
 			}
-			isN := roleBinOp(token.SUB, roleIs(stripConv(H)), roleConst(4))
+			// n = H - 4; behind the length test len(data) stands for H as well
+			isN := roleOr(roleBinOp(token.SUB, roleIs(stripConv(H)), roleConst(4)), roleBinOp(token.SUB, roleLenOf(data), roleConst(4)))
 			symSlice := func(loN, hiN bool) role {
 				return func(v ssa.Value) bool {
 					ref, ok := sliceRefOf(v)
@@ -404,8 +405,41 @@ func ruleXZReaderChecks(c *Ctx, r *Report, prefix string) {
 					}
 				}
 			}
-			okSizes := len(calls) == 2 && instrOrder(calls[0], calls[1]) &&
-				bit(0x40)(calls[0].Call.Args[1]) && bit(0x80)(calls[1].Call.Args[1]) &&
+			// presence: the flag bit is handed to the parser, or the parse happens under `flags&mask != 0`
+			// with the field preset to -1 (absent)
+			present := func(call *ssa.Call, mask int64, f *types.Var) bool {
+				if len(call.Call.Args) >= 2 {
+					return bit(mask)(call.Call.Args[1])
+				}
+				b := call.Block()
+				for d := b.Idom(); d != nil; d = d.Idom() {
+					iff, isIf := d.Instrs[len(d.Instrs)-1].(*ssa.If)
+					if !isIf || !bit(mask)(iff.Cond) || len(d.Succs[0].Preds) != 1 || !(d.Succs[0] == b || d.Succs[0].Dominates(b)) {
+						continue
+					}
+					for _, pb := range b.Parent().Blocks {
+						if pb != d && !pb.Dominates(d) {
+							continue
+						}
+						for _, ins := range pb.Instrs {
+							if st, isSt := storeToField(ins, f); isSt {
+								if k, isK := constInt(st.Val); isK && k == -1 {
+									return true
+								}
+							}
+						}
+					}
+				}
+				return false
+			}
+			before := func(a, b *ssa.Call) bool {
+				if a.Block() == b.Block() || a.Parent() != b.Parent() {
+					return instrOrder(a, b)
+				}
+				return blockReaches(a.Block(), b.Block()) && !blockReaches(b.Block(), a.Block())
+			}
+			okSizes := len(calls) == 2 && before(calls[0], calls[1]) &&
+				present(calls[0], 0x40, c.Field("", "blockHeader.compressedSize")) && present(calls[1], 0x80, c.Field("", "blockHeader.uncompressedSize")) &&
 				extractStoredTo(calls[0], 0, c.Field("", "blockHeader.compressedSize")) &&
 				extractStoredTo(calls[1], 0, c.Field("", "blockHeader.uncompressedSize"))
 			r.Check(okSizes, rule, "V22-size-fields:"+FnName(fn), c.Pos(fn.Pos()),
@@ -413,7 +447,7 @@ func ruleXZReaderChecks(c *Ctx, r *Report, prefix string) {
 				"the optional size fields are not read as: flag 0x40 -> first varint -> compressedSize, flag 0x80 -> second varint -> uncompressedSize")
 			for i, call := range calls {
 				cc := call
-				o.mustCheck(fmt.Sprintf("V22-size-field-error#%d", i+1), func(x *ssa.Call) bool { return x == cc }, "size field parse error propagated")
+				o.mustCheckX(fmt.Sprintf("V22-size-field-error#%d", i+1), func(x *ssa.Call) bool { return x == cc }, "size field parse error propagated", len(cc.Call.Args) < 2)
 			}
 			if readFilters == fn {
 				// readFilters was folded into UnmarshalBinary: the one filter is parsed by readFilter
@@ -477,8 +511,8 @@ func ruleXZReaderChecks(c *Ctx, r *Report, prefix string) {
 		o := newOb(c, r, rule, fn)
 		mu, mc := roleGetter(c, fBRn), roleGetter(c, fCRn)
 		du, dc := roleFieldLoad(fBHu), roleFieldLoad(fBHc)
-		o.rel("V23-uncompressed-upper", mu, du, token.GTR, "decoded bytes exceed the declared uncompressed size")
-		o.rel("V23-compressed-upper", mc, dc, token.GTR, "consumed bytes exceed the declared compressed size")
+		gUu := o.rel("V23-uncompressed-upper", mu, du, token.GTR, "decoded bytes exceed the declared uncompressed size")
+		gCu := o.rel("V23-compressed-upper", mc, dc, token.GTR, "consumed bytes exceed the declared compressed size")
 		gU := o.rel("V24-uncompressed-lower", mu, du, token.LSS, "block ended with fewer decoded bytes than declared")
 		gC := o.rel("V24-compressed-lower", mc, dc, token.LSS, "block ended with fewer consumed bytes than declared")
 		// the measured size is advanced by exactly what was delivered
@@ -599,6 +633,44 @@ func ruleXZReaderChecks(c *Ctx, r *Report, prefix string) {
 				if bad {
 					break
 				}
+			}
+			// V23 on every return that is not an error: nil and the clean io.EOF alike (the upper
+			// bounds are tested after every read, also after the last one)
+			if gUu != nil && gCu != nil {
+				badU := ""
+				nRet := 0
+				for _, sp := range paths {
+					cleanEOF := false
+					if sp.ErrGlobal != nil && isEOF(sp.ErrGlobal) {
+						_, cleanEOF = sp.ErrVal.(*ssa.Global)
+					}
+					if sp.Panic || !(sp.ErrNil || cleanEOF) {
+						continue
+					}
+					nRet++
+					for _, g := range []*guard{gUu, gCu} {
+						bv, known := sp.P.BoolOf(g.iff.Cond)
+						tested := known && !bv
+						if !known {
+							// `declared >= 0 && measured > declared`: not evaluated when the size is not declared
+							if d := g.iff.Block().Idom(); d != nil && !sp.P.Visited(g.iff.Block()) && sp.P.Visited(d) {
+								if dif, isIf := d.Instrs[len(d.Instrs)-1].(*ssa.If); isIf {
+									if dv, dk := sp.P.BoolOf(dif.Cond); dk {
+										if cmp, isC := dif.Cond.(*ssa.BinOp); isC && (cmp.Op == token.GEQ || cmp.Op == token.LSS) && (du(cmp.X) || dc(cmp.X)) {
+											if k, isK := constInt(cmp.Y); isK && k == 0 && dv == (cmp.Op == token.LSS) {
+												tested = true
+											}
+										}
+									}
+								}
+							}
+						}
+						if !tested && badU == "" {
+							badU = "a path returns at " + c.InstrPos(sp.Exit) + " without an error although the test at " + c.InstrPos(g.iff) + " (measured size > declared size) was not made on it: a block longer than its header declares is accepted"
+						}
+					}
+				}
+				r.Check(badU == "" && nRet > 0, rule, "V23-always:"+FnName(fn), c.Pos(fn.Pos()), "the upper size bounds are tested on every return without error (nil and clean io.EOF)", badU)
 			}
 			if !bad && nEOF > 0 {
 				r.Pass(rule, "V26-clean-eof:"+FnName(fn), c.Pos(fn.Pos()), "every synthesised io.EOF return lies behind the size lower bounds, the padding check and the check comparison", len(paths))
@@ -884,7 +956,7 @@ func filledByReadFullFrom(buf ssa.Value, src role) bool {
 		return false
 	}
 	for _, ref := range *buf.Referrers() {
-		if call, ok := ref.(*ssa.Call); ok && stdCalleeName(call) == "io.ReadFull" && stripConv(call.Call.Args[1]) == buf {
+		if call, ok := ref.(*ssa.Call); ok && stdCalleeName(call) == "io.ReadFull" && (call.Call.Args[1] == buf || stripConv(call.Call.Args[1]) == buf) {
 			s := call.Call.Args[0]
 			if src(s) {
 				return true
@@ -892,6 +964,19 @@ func filledByReadFullFrom(buf ssa.Value, src role) bool {
 			// br.(io.Reader) type assertion of a wrapped reader
 			if ta, ok := s.(*ssa.TypeAssert); ok && src(ta.X) {
 				return true
+			}
+		}
+		// handed to a new helper that fills its parameter with io.ReadFull
+		if call, ok := ref.(*ssa.Call); ok {
+			if h := call.Call.StaticCallee(); h != nil && theCtx.IsNew(h) && h.Blocks != nil {
+				for i, a := range call.Call.Args {
+					if a == buf && i < len(h.Params) {
+						theCtx.bindCall(h, call)
+						if filledByReadFullFrom(h.Params[i], src) {
+							return true
+						}
+					}
+				}
 			}
 		}
 	}
@@ -976,4 +1061,23 @@ func checkStore(c *Ctx, r *Report, rule string, fn *ssa.Function, f *types.Var, 
 		}
 	}
 	r.Check(ok, rule, id+":"+FnName(fn), c.Pos(fn.Pos()), desc, FnName(fn)+" does not perform: "+desc)
+}
+
+// blockReaches: a path of one or more edges leads from a to b.
+func blockReaches(a, b *ssa.BasicBlock) bool {
+	seen := map[*ssa.BasicBlock]bool{}
+	stack := append([]*ssa.BasicBlock{}, a.Succs...)
+	for len(stack) > 0 {
+		x := stack[len(stack)-1]
+		stack = stack[:len(stack)-1]
+		if x == b {
+			return true
+		}
+		if seen[x] {
+			continue
+		}
+		seen[x] = true
+		stack = append(stack, x.Succs...)
+	}
+	return false
 }
